@@ -777,6 +777,10 @@ class Check:
 
 
 def run_check(pid: str, fn, tier: str) -> int:
+    # rules copy expressions with copy.deepcopy; the nodes carry parent links, so a copy walks up to the module: the default limit of
+    # 1000 frames was met within a few frames on advection.py
+    if sys.getrecursionlimit() < 6000:
+        sys.setrecursionlimit(6000)
     chk = Check(pid, tier)
     try:
         fn(chk)
